@@ -26,7 +26,7 @@ PID = "C03"
 CLASSES = {"header": 0, "proposer_signature": 0, "randao": 0, "attestation": 0, "attester_slashing": 0, "proposer_slashing": 0,
            "deposit": 0, "exit": 0, "limits": 0, "indexed_attestation_shape": 0,
            "attestation_data_slashability": 0, "slashable_boundary": 0, "exit_status": 0,
-           "deposit_none_expected": 0, "deposit_count_underflow": 0, "sync_aggregate": 1, "payload": 2, "withdrawals": 3, "bls_change": 3, "blobs": 4}
+           "deposit_none_expected": 0, "deposit_count_underflow": 0, "block_slot_not_after_state_slot": 0, "sync_aggregate": 1, "payload": 2, "withdrawals": 3, "bls_change": 3, "blobs": 4}
 FORKS = ["phase0", "altair", "bellatrix", "capella", "deneb"]
 _MARK = re.compile(r'<<\s*"(MISMATCH|CONTROL|UNJUDGED|MODELREJECT)",\s*(\d+),\s*"(\w+)"\s*>>')
 
@@ -37,6 +37,8 @@ _MARK = re.compile(r'<<\s*"(MISMATCH|CONTROL|UNJUDGED|MODELREJECT)",\s*(\d+),\s*
 P0, ALT, BEL, CAP, DEN = 0, 1, 2, 3, 4
 CONDITIONS = {
     # state_transition / process_block_header
+    "state_transition: state.slot < block.slot (process_slots precondition)": (P0, ["block-slot-equals-state-slot",
+                                                                                 "block-slot-before-state-slot"]),
     "header.slot == state.slot (after process_slots)": (P0, ["header-slot-plus-one", "header-slot-minus-one"]),
     "header.proposer_index == get_beacon_proposer_index": (P0, ["wrong-proposer-index", "header-proposer-out-of-range"]),
     "header.parent_root == hash_tree_root(latest_block_header)": (P0, ["wrong-parent-root"]),
@@ -180,7 +182,7 @@ def validate_file(path, timeout=2400):
     return r
 
 
-NEG_KINDS = ("BlockInvalid", "Panic", "NegControl", "Crash")
+NEG_KINDS = ("BlockInvalid", "Panic", "NegControl", "Crash", "SlotsNeg")
 
 
 def main(tier, seed, replay=None):
@@ -210,6 +212,9 @@ def main(tier, seed, replay=None):
             if c.get("neg_class_%s_%s" % (cl, FORKS[fi]), 0) == 0:
                 missing.append("%s/%s" % (cl, FORKS[fi]))
     missing += uncovered_conditions(c)
+    for k in ("slots_neg_to_current_slot", "slots_neg_to_earlier_slot"):
+        if c.get(k, 0) == 0:
+            missing.append(k)
     if tier == "thorough" and c.get("neg_class_bytes", 0) == 0:
         missing.append("bytes")
     files = [f["path"] for f in stats["files"] if f["events"] > 1]
@@ -272,6 +277,7 @@ def main(tier, seed, replay=None):
         "controls_accepted_with_specified_post_state": controls, "unjudged": unjudged, "known_finding_hits": len(known),
         "rejected": c.get("neg_rejected", 0), "accepted": c.get("neg_accepted", 0), "panics": c.get("neg_panic", 0),
         "clamped_numbers": c.get("neg_clamped", 0),
+        "process_slots_negative_calls": c.get("slots_neg_to_current_slot", 0) + c.get("slots_neg_to_earlier_slot", 0),
         "per_class_fork": {k[len("neg_class_"):]: v for k, v in c.items() if k.startswith("neg_class_")},
         "per_variant": per_variant, "conditions_guarded": len(CONDITIONS), "samples": samples, "trace_files": len(files), "base_chain_blocks": c.get("block_events", 0),
     }
@@ -322,6 +328,8 @@ MUTANTS = {
     "deposit_count_saturating_subtraction": ("eth2/beacon/phase0/deposit.go",
                                              "if eth1Data.DepositCount < depIndex {\n\t\treturn errors.New(\"eth1 data deposit count is lower than the state's deposit index\")\n\t}\n\texpectedInputCount := uint64(eth1Data.DepositCount - depIndex)",
                                              "expectedInputCount := uint64(0)\n\tif eth1Data.DepositCount > depIndex {\n\t\texpectedInputCount = uint64(eth1Data.DepositCount - depIndex)\n\t}"),
+    "process_slots_guard_relaxed": ("eth2/beacon/common/transition.go",
+                                    "if currentSlot >= slot {", "if currentSlot > slot {"),
     "attester_slashing_reason_not_checked": ("eth2/beacon/phase0/attester_slashing.go",
                                              "if !IsSlashableAttestationData(&sa1.Data, &sa2.Data) {",
                                              "if false && !IsSlashableAttestationData(&sa1.Data, &sa2.Data) {"),
